@@ -8,6 +8,7 @@ D1/D2 demand byte-identical results, D3/D4 monitor rendering and locations.
 """
 import json
 import os
+import random
 import re
 import unicodedata
 import shutil
@@ -174,7 +175,13 @@ def generated_set(seed, i):
             b = rng.choice(tgts)
             files[sp.files[b]] += "\nfn zz_worse() -> i32\n{\n\tvar x: u8 = true;\n\treturn: x\n}\n"
         elif m == "unresolved_import":
-            files[sp.files[a]] = 'import "nowhere/%s.pn";\n' % rng.choice(["x", "lib", "é"]) + files[sp.files[a]]
+            name = rng.choice(["x", "lib", "é"])
+            own = random.Random("C13/long_import:%s:%d:%d" % (seed, i, len(mistakes)))
+            if own.random() < 0.8:
+                # a long path full of multi-byte characters (whatever a report does to shorten or
+                # align a quoted path, some character straddles the place where it cuts)
+                name = "a" * own.randrange(3) + own.choice(["é", "字", "é字", "😀"]) * own.randint(12, 60) + own.choice(["x", "/x", "xy", "/xyz", ""])
+            files[sp.files[a]] = 'import "nowhere/%s.pn";\n' % name + files[sp.files[a]]
         elif m == "syntax_error":
             b = rng.randrange(sp.k)
             t = files[sp.files[b]]
